@@ -36,3 +36,71 @@ safe Config [C03]
 safe ListConfig [C03]
 safe Version [C03]
 @*/
+
+/*@
+module gov
+props C17 C19
+use common vote
+dialect neovm
+
+// C17 / C19: vote-collected actions and exact GAS accounting of the main-chain contract.
+pure notaryDisabled(s Store) Bool = s.has("notary") && b2i(s.get("notary")) != 0
+pure cfg(s Store, k Bytes) Int = b2i(s.get("config" ++ k))
+pure gasHash() Bytes = "\xcf\x76\xe2\x8b\xd0\x06\x2c\x4a\x47\x8e\xe3\x55\x61\x01\x13\x19\xf3\xcf\xa4\xd2"
+
+func Cheque(id, user, amount, lockAcc)
+  // pays out exactly the cheque amount, at most once per invocation, together with its notification
+  ensures [C19] xcalls == old(xcalls) || xcalls == old(xcalls) ++ [native_gas_Transfer(self(), user, amount, nil)]
+  ensures [C19] notifs == old(notifs) || notifs == old(notifs) ++ [Cheque(id, user, amount, lockAcc)]
+  ensures [C19] (xcalls == old(xcalls)) == (notifs == old(notifs))
+  ensures [C17,C19] !notaryDisabled(old(store)) ==> W(alphabet())
+        && xcalls == old(xcalls) ++ [native_gas_Transfer(self(), user, amount, nil)]
+        && notifs == old(notifs) ++ [Cheque(id, user, amount, lockAcc)] && store == old(store)
+  // without Notary nothing but the ballot list is written
+  ensures [C17] forall k Bytes {store.opt(k)} :: k != "ballots" ==> store.opt(k) == old(store).opt(k)
+
+func InnerRingCandidateAdd(key)
+  ensures [C19] W(key) && !old(store).has("candidates" ++ key)
+  ensures [C19] xcalls == old(xcalls) ++ [native_gas_Transfer(stdacct(key), self(), cfg(old(store), "InnerRingCandidateFee"), "\x57\x0b")]
+  ensures [C19] store.has("candidates" ++ key)
+  ensures [C19] forall k Bytes {store.opt(k)} :: k != "candidates" ++ key ==> store.opt(k) == old(store).opt(k)
+  ensures [C19] notifs == old(notifs)
+
+func OnNEP17Payment(from, amount, data)
+  // a deposit is reported only for GAS, 0 < amount <= 9000 GAS
+  ensures [C19] notifs == old(notifs) || (0 < amount && amount <= 900000000000 && callingScriptHash == gasHash())
+  ensures [C19] store == old(store) && xcalls == old(xcalls)
+
+pure akeys(s Store) L_NB = deser_L_NB(s.get("alphabet"))
+pure nT(i Int) Int = i
+
+// a withdrawal request charges exactly the configured fee: once to Processing with Notary, once per Alphabet key without
+func Withdraw(user, amount)
+  ensures [C19] W(user) && 0 <= amount && amount <= 9000
+  ensures [C19] store == old(store)
+  ensures [C19] notifs == old(notifs) ++ [Withdraw(user, amount * 100000000, txhash())]
+  ensures [C19] !notaryDisabled(old(store)) && old(store).has("processingScriptHash") ==> xcalls("native_gas_Transfer").len == old(xcalls("native_gas_Transfer")).len + 1
+        && xcalls("native_gas_Transfer")[old(xcalls("native_gas_Transfer")).len]
+           == ev_native_gas_Transfer(user, old(store).get("processingScriptHash"), cfg(old(store), "WithdrawFee"), "")
+  ensures [C19] notaryDisabled(old(store)) && old(store).has("alphabet") ==>
+        xcalls("native_gas_Transfer").len == old(xcalls("native_gas_Transfer")).len + len(akeys(old(store)))
+  ensures [C19] notaryDisabled(old(store)) && old(store).has("alphabet") ==> forall j Int {akeys(old(store))[j]} :: 0 <= j && j < len(akeys(old(store))) ==>
+        xcalls("native_gas_Transfer")[old(xcalls("native_gas_Transfer")).len + j]
+           == ev_native_gas_Transfer(user, stdacct(akeys(old(store))[j]), cfg(old(store), "WithdrawFee"), "")
+  loop 0
+    invariant store == entry(store) && notifs == entry(notifs)
+    invariant xcalls("native_gas_Transfer").len == entry(xcalls("native_gas_Transfer")).len + $i && $i <= len(alphabet)
+    invariant forall j Int {alphabet[j]} :: 0 <= j && j < $i ==>
+        xcalls("native_gas_Transfer")[entry(xcalls("native_gas_Transfer")).len + j] == ev_native_gas_Transfer(user, stdacct(alphabet[j]), fee, "")
+
+func SetConfig(id, key, val)
+  ensures [C17] !notaryDisabled(old(store)) ==> W(alphabet())
+  ensures [C17] notifs == old(notifs) || notifs == old(notifs) ++ [SetConfig(id, key, val)]
+  ensures [C17] forall k Bytes {store.opt(k)} :: k != "ballots" && k != "config" ++ key ==> store.opt(k) == old(store).opt(k)
+
+func AlphabetUpdate(id, args)
+  ensures [C17] !notaryDisabled(old(store)) ==> W(alphabet())
+  ensures [C17] forall k Bytes {store.opt(k)} :: k != "ballots" && k != "alphabet" ==> store.opt(k) == old(store).opt(k)
+  loop 0
+    invariant store == old(store) && notifs == old(notifs) && xcalls == old(xcalls)
+@*/
